@@ -212,6 +212,21 @@ func c18Replay(args []string) error {
 						cs["observed"] = g
 						report("adts/roundtrip", "decoded ADTS header differs from the encoded one")
 					}
+					// a decoded header written again (always as a 7-byte header without CRC) describes the same frame:
+					// same object type, frequency index, channels and payload length when decoded once more
+					if got != nil {
+						re := got.Encode()
+						got2, off2, err2 := aac.DecodeADTSHeader(bytes.NewReader(re))
+						if err2 != nil || off2 != 0 || got2 == nil {
+							cs["reencoded"] = bytes2ints(re)
+							rep.Violation("adts/reencode-decoded/error", "a decoded header, encoded again, does not decode at offset 0", cs)
+						} else if got2.PayloadLength != got.PayloadLength || got2.ObjectType != got.ObjectType || got2.HeaderLength != 7 ||
+							got2.SamplingFrequencyIndex != got.SamplingFrequencyIndex || got2.ChannelConfig != got.ChannelConfig {
+							cs["reencoded"] = bytes2ints(re)
+							cs["observed_again"] = adtsProj(got2)
+							rep.Violation("adts/reencode-decoded/differs", fmt.Sprintf("a decoded header (header length %d, payload %d), encoded again, decodes to payload %d", got.HeaderLength, got.PayloadLength, got2.PayloadLength), cs)
+						}
+					}
 					// the sampling frequency the decoded header states (ISO/IEC 14496-3 table 1.18)
 					isoFreq := []int{96000, 88200, 64000, 48000, 44100, 32000, 24000, 22050, 16000, 12000, 11025, 8000, 7350}
 					if wh.Sfi < len(isoFreq) && int(got.Frequency()) != isoFreq[wh.Sfi] {
